@@ -78,6 +78,11 @@ type Input struct {
 	DSLevel bool `json:"ds_level,omitempty"`
 	// DocPaths: dotted document paths (compact terms / indices) handed to the resolvers
 	DocPaths []string `json:"doc_paths,omitempty"`
+	// CtxBytes / TypeTerm / FieldPaths: inputs of Options.PathFromContext(ctx, Type.field)
+	// and Options.FieldPathFromContext(ctx, Type, field)
+	CtxBytes   json.RawMessage `json:"ctx_bytes,omitempty"`
+	TypeTerm   string          `json:"type_term,omitempty"`
+	FieldPaths []string        `json:"field_paths,omitempty"`
 	// ReplayPath: set only when replaying a failing input that names one path
 	ReplayPath []any `json:"replay_path,omitempty"`
 	ReplayPK   int   `json:"replay_pk,omitempty"`
@@ -555,7 +560,9 @@ func (e *Env) RootStep(s *Scen) {
 // PathObjKeyStep observes the key of a Path object produced by one of the resolvers
 // (ResolveDocPath, Options.NewPathFromDocument, ...): the model's claim is that such a
 // Path stores the same hasher as Options.NewPath.
-func (e *Env) PathObjKeyStep(s *Scen, p merklize.Path) {
+// pk names the API that produced the path (Merklizer/Run.v pkind_of): 0 Options.NewPath,
+// 2 PathFromContext, 3 FieldPathFromContext, 4 NewPathFromDocument, 5 ResolveDocPath.
+func (e *Env) PathObjKeyStep(s *Scen, pk int, p merklize.Path) {
 	parts := clone(p.Parts())
 	for _, x := range parts {
 		if i, ok := x.(int); ok && i < 0 {
@@ -564,7 +571,7 @@ func (e *Env) PathObjKeyStep(s *Scen, p merklize.Path) {
 	}
 	k, kerr := p.MtEntry()
 	s.add(func(f *coqgen.File) string {
-		return fmt.Sprintf("RPathKey 0 %s %s", mzrun.PartsCoq(f, parts), rzCoq(k, kerr))
+		return fmt.Sprintf("RPathKey %d %s %s", pk, mzrun.PartsCoq(f, parts), rzCoq(k, kerr))
 	})
 }
 
